@@ -641,8 +641,15 @@ class Prefix:
             return IdentityPrefix
 
         key = (base, exponent)
-        if key in cls._known:
-            return cls._known[key]
+        known = cls._known.get(key)
+
+        if name and cls._by_name.get(name, known) is not known:
+            raise ValueError(f"A prefix named {name} is already defined")
+        if symbol and cls._by_symbol.get(symbol, known) is not known:
+            raise ValueError(f"A prefix with symbol {symbol} is already defined")
+
+        if known is not None:
+            return known
 
         self = super().__new__(cls)
         self._initialized = False
@@ -658,6 +665,14 @@ class Prefix:
         symbol: Optional[str] = None,
     ) -> None:
         if self._initialized:
+            # a prefix that was first created anonymously (as the result of some
+            # arithmetic, say) can still be given its name and symbol later
+            if name and not self.name:
+                self.name = name
+                self._by_name[name] = self
+            if symbol and not self.symbol:
+                self.symbol = symbol
+                self._by_symbol[symbol] = self
             return
 
         self.base = base
